@@ -219,6 +219,12 @@ def classifyCond (c : Opnd) : Lax :=
   | .nil => .nilAsValue
   | _ => .other
 
+/-- `assert_agree`: the only operand on which the two sides differ is `nil` -/
+def classifyAssert (x : Opnd) : Lax :=
+  match x.sh with
+  | .nil => .nilAsValue
+  | _ => .other
+
 def classifyConv (t : Ty) (x : Opnd) : Lax :=
   match x.sh with
   | .nil => .nilAsValue
@@ -310,6 +316,9 @@ mutual
     | .conv t e => do
       let x ← domE T env none e
       site (convY T t x) (convG t x) (classifyConv t x)
+    | .assert t e => do
+      let x ← domE T env none e
+      site (assertY T t x) (assertG t x) (classifyAssert x)
     | .index a i => do
       let x ← domE T env none a
       let y ← domE T env none i
@@ -333,6 +342,10 @@ mutual
       let x ← domE T env none e
       let t ← site (defineY T x) (defineG x) (if x.ty.isNil then .nilAsValue else classifyAssign x (defaultTypeY x.ty))
       .ok (env.vars ++ [t])
+    | .defineOk t e => do
+      let x ← domE T env none e
+      let y ← site (assertY T t x) (assertG t x) (classifyAssert x)
+      .ok (env.vars ++ [y.ty, .s (.basic .bool)])
     | .assign i e => match env.vars[i]? with
       | none => .stop
       | some t => do
